@@ -3,7 +3,8 @@
    unpickling + __setstate__ chain, merge_remote = Composite._parse_remotely_executed_self, the run cycle with
    the input lock).  Mode [AsWritten] = the code as it is since the fix of the merge (build/c10_fix.diff:
    grafting for every composite, fresh channels re-owned, local detached path kept, value links across the
-   boundary re-forged); that is the mode the correspondence check runs.  Only Theorem / exact / Print
+   boundary re-forged, build/c10_fix2.diff: the enclosing macro's link re-pointed without pushing its value);
+   that is the mode the correspondence check runs.  Only Theorem / exact / Print
    Assumptions here; proofs in RemoteProofs.v.
 
    What is proved where
@@ -19,11 +20,9 @@
      and evaluated by the harness on the state of every merge it drives), every kind of composite.
    * "while out every attempt to change its inputs is refused ... unlocked after success AND failure":
      C10_lock_*, for EVERY state.
-   Two clauses are still violated by the code: a WORKFLOW that is out leaves its inputs (its children's channels)
+   One clause is still violated by the code: a WORKFLOW that is out leaves its inputs (its children's channels)
    writable -- C10_lock_refuted_workflow, known finding C10-workflow-inputs-unlocked; C10_lock_partial carries the
-   matching guard (the channel is owned by the node that is out) -- and the merge pushes an enclosing macro's value
-   into the returned node's fresh input -- C10_delivered_refuted_relink, known finding
-   C10-relink-pushes-parent-value. *)
+   matching guard (the channel is owned by the node that is out). *)
 From PW Require Import Base Remote RemoteProofs.
 From PW Require Dag DagProofs.
 
@@ -177,19 +176,6 @@ Theorem C10_lock_refuted_workflow : exists h wf c,
 Proof. exact lock_refuted_workflow. Qed.
 Print Assumptions C10_lock_refuted_workflow.
 
-(* STILL VIOLATED: the merge re-points an enclosing macro's input at the fresh input channel through the
-   value_receiver SETTER, which pushes the enclosing macro's value: a nested macro that was sent out with
-   x = 5 (assigned at its own input; links are one-directional) comes back showing x = 1 and holding the output
-   for 5 (known finding C10-relink-pushes-parent-value; follow-up repair build/c10_fix2.diff = RELINK_PUSH false) *)
-Theorem C10_delivered_refuted_relink :
-  RELINK_PUSH = true /\
-  let s := run_ops AsWritten 2 demo_nested [OSet "x" 5%Z; ORun; OComplete] in
-  c_log s = [OS "ok"; OS "Future"; OS "done"] /\
-  chan_val (c_heap s) 2 PIn "x" = Some 1%Z /\ chan_val (c_heap s) 2 POut "out" = Some 8%Z /\
-  apply_fun FLin [101; 2; 2]%Z = Some 4%Z.
-Proof. exact relink_push_refuted. Qed.
-Print Assumptions C10_delivered_refuted_relink.
-
 (* ---- non-vacuity (states reflected from real object graphs) --------------------------------------------- *)
 (* the state in which the real macro /wf/n1 = MA{a -> b}, connected to /wf/n0 and /wf/n2, is merged after a
    pickle-boundary run meets the hypotheses; the merge keeps parent, executor and lexical path, adopts the two
@@ -253,3 +239,16 @@ Example C10_nested_refused :
   chan_val (c_heap s3) 1 PIn "x" = Some 1%Z /\ chan_val (c_heap s3) 2 PIn "x" = Some 1%Z /\
   chan_val (c_heap s3) 2 POut "out" = Some 4%Z.
 Proof. exact nested_refused_example. Qed.
+
+(* ... and an input assigned at the nested node's own level (the enclosing input keeps 1) is what it is sent out
+   with, what it shows when it comes back and what its output belongs to; the enclosing link points at the fresh
+   input channel *)
+Example C10_nested_keeps_shown :
+  RELINK_PUSH = false /\
+  let s := run_ops AsWritten 2 demo_nested [OSet "x" 5%Z; ORun; OComplete] in
+  c_log s = [OS "ok"; OS "Future"; OS "done"] /\
+  chan_val (c_heap s) 2 PIn "x" = Some 5%Z /\ chan_val (c_heap s) 2 POut "out" = Some 8%Z /\
+  chan_val (c_heap s) 1 PIn "x" = Some 1%Z /\
+  match find_chan (c_heap s) 1 PIn "x" with Some c => c_recv (ch (c_heap s) c) | None => None end
+    = find_chan (c_heap s) 2 PIn "x".
+Proof. exact relink_keeps_shown. Qed.
